@@ -13,7 +13,7 @@ Decided (structural, necessary conditions):
 Not decided: equality with an independent implementation on every input (needs execution), SHA-1 round arithmetic.
 """
 from .. import refs
-from ..mir import const_int
+from ..mir import const_int, op_place
 from ..sym import Explorer, K, is_const, show, walk
 from .c11 import N, fold, nocast
 
@@ -414,10 +414,42 @@ def sha1_rules(ctx):
         ctx.fail_closed("SHA1", "sha1::Blocks::input not found")
     else:
         consts = set()
+        from ..panic import BodyIndex as _BI, const_slice_len as _csl
+        import re as _re
+
+        iix = _BI(ib)
+
+        def _size(o):
+            """a chunk size given as a literal, a named constant, or the length of the fixed-size block array"""
+            r_ = iix.resolve(o)
+            if r_[0] == "const":
+                return r_[1]
+            if r_[0] == "call" and iix.callee(r_[1]).split("::")[-1] == "len" and r_[1]["args"]:
+                q_ = op_place(r_[1]["args"][0])
+                d_ = iix.single_def(q_["l"]) if q_ and not q_["p"] else None
+                ty_ = ""
+                if d_ and d_[0] == "assign" and d_[3]["rv"]["k"] == "ref":
+                    ty_ = d_[3]["rv"]["p"].get("ty", "")
+                elif d_ and d_[0] == "assign" and d_[3]["rv"]["k"] in ("cast", "use"):
+                    src_ = op_place(d_[3]["rv"]["a"])
+                    dd_ = iix.single_def(src_["l"]) if src_ and not src_["p"] else None
+                    if dd_ and dd_[0] == "assign" and dd_[3]["rv"]["k"] == "ref":
+                        ty_ = dd_[3]["rv"]["p"].get("ty", "")
+                m_ = _re.search(r"\[u8; (\d+)\]", ty_ or (q_ or {}).get("ty", ""))
+                return int(m_.group(1)) if m_ else None
+            return None
+
+        exact = False
         for _bi, t in ib.calls():
             c = t.get("res") or ""
             if c.endswith("::chunks"):
-                consts.add(("chunks", const_int(t["args"][1])))
+                consts.add(("chunks", _size(t["args"][1])))
+            if c.endswith("::chunks_exact"):
+                # full blocks by chunks_exact(64), the rest by remainder(): the same split as chunks(64) + `len == 64`
+                consts.add(("chunks", _size(t["args"][1])))
+                exact = any((t2.get("res") or "").endswith("::remainder") for _b2, t2 in ib.calls())
+        if exact:
+            consts.add(("Eq", 64))
         for _bi, _si, s in ib.stmts():
             rv = s.get("rv", {})
             if rv.get("k") == "bin" and rv["op"] in ("Eq", "Ne", "Lt", "Le", "Gt", "Ge"):
